@@ -226,7 +226,7 @@ Lemma sendLoop_S f t endv limit :
         sendLoop f (emit t (s <| outstanding := outstanding s + 1 |> <| wsent := wsent s ++ [w2] |> <| wunsent := rest' |>)
                           (w_data w2) (w_flags w2) (w_seq w2) (add (w_seq w2) (u32 (len (w_data w2))))) endv limit
   end.
-Proof. reflexivity. Qed.
+Proof. unfold emit, numbered. cbn [sendLoop]. reflexivity. Qed.
 
 Lemma emit_spec W fin t s' data flags sq segEnd q n :
   sndNxt s' = seq_of n -> segEnd = seq_of q -> - 2^31 < q - n < 2^31 ->
@@ -248,6 +248,30 @@ Proof.
   - split.
     + eapply Ext_trans; [exact E0|exact E].
     + rewrite sendSegment_SN. cbn. rewrite Z.max_l by lia. repeat split; try reflexivity. exact Hn.
+Qed.
+
+Lemma emit_closed t s' d fl sq se : sndClosedE (emit t s' d fl sq se) = sndClosedE t.
+Proof.
+  unfold emit. cbv zeta. destruct (lessThan _ _); cbn; rewrite sendSegment_closed; reflexivity.
+Qed.
+
+Lemma sendLoop_closed : forall f t endv limit, sndClosedE (sendLoop f t endv limit) = sndClosedE t.
+Proof.
+  induction f as [|f IH]; intros t endv limit; [reflexivity|].
+  rewrite sendLoop_S. cbv zeta.
+  destruct (wunsent (SN t)) as [|w rest]; [reflexivity|].
+  destruct (negb (outstanding (SN t) <? cwnd (SN t))); [reflexivity|].
+  destruct (len (w_data (numbered (SN t) w)) =? 0); [rewrite IH, emit_closed; reflexivity|].
+  destruct (negb (lessThan (w_seq (numbered (SN t) w)) endv)); [reflexivity|].
+  destruct (_ <? len (w_data (numbered (SN t) w))); rewrite IH, emit_closed; reflexivity.
+Qed.
+
+Lemma sendData_closed t idle : sndClosedE (sendData t idle) = sndClosedE t.
+Proof.
+  unfold sendData. cbv zeta.
+  match goal with |- context [sendLoop ?f ?t1 ?e ?l] =>
+    pose proof (sendLoop_closed f t1 e l) as H; set (X := sendLoop f t1 e l) in * end.
+  clearbody X. cbn in H. destruct (_ && _); cbn; exact H.
 Qed.
 
 (* what the head of wunsent looks like once sendLoop has numbered it *)
